@@ -35,6 +35,8 @@ All == {[bps0 |-> b, script |-> q, family |-> "general"] : b \in {"None", "A", "
        (* round 6: stepOut between a push and a pull inside a subroutine that calls another one afterwards; steps sent while running *)
        \cup {[bps0 |-> "B", script |-> q, family |-> "stepoutpush"] : q \in {<<"wait", "stepOut">>, <<"wait", "stepOut", "stepIn">>, <<"wait", "stepIn", "stepOut">>}}
        \cup {[bps0 |-> b, script |-> <<"runstep", "continue", "wait">>, family |-> "steprun"] : b \in {"A", "B"}}
+       (* round 7: breakpoints that carry a column (inside the instruction's span): the line's instruction must stop the machine all the same *)
+       \cup {[bps0 |-> "A", script |-> RunThrough(2), family |-> "column"]}
        \cup {[bps0 |-> "A", script |-> <<"wait", "malformed:" \o k, "inspect">>, family |-> "malformed"] :
                k \in {"unknown_command", "variables_reference", "setbps_no_path", "setbps_line0", "completions_end", "event_message"}}
 VARIABLE x
